@@ -178,6 +178,38 @@ func (g *gen) corpus() {
 		}
 		s.OpRotate(feeBefore)
 	}
+	// (2c) delayed settlement keeps the witness (seeded change C15-1, first caught by a random history only): inputs that
+	//      carry a witness are melted, the payment stays PENDING, and is settled later - once by a poll of the quote, once by
+	//      a state check; the state check afterwards reports them SPENT with the witness they were presented with
+	for variant := 0; variant < 2; variant++ {
+		ps := take(40)
+		if len(ps) == 0 {
+			break
+		}
+		for i := range ps {
+			ps[i].P.Witness = fmt.Sprintf("{\"signatures\":[\"%02x\"]}", 0x30+i+variant)
+		}
+		li, err := env.LN.makeInvoice(20000, true)
+		if err != nil {
+			break
+		}
+		s.regExt(li)
+		mq := s.OpMeltQuote(li, "sat", 0, 0)
+		if mq == nil {
+			break
+		}
+		s.OpMeltLn(mq, ps, []string{"pending", "pending"}, false)
+		var qs []YQuery
+		for _, p := range ps {
+			qs = append(qs, YQuery{Y: YOf(p.P.Secret), Sec: p.P.Secret})
+		}
+		if variant == 0 {
+			s.OpMeltState(mq, []string{"succ"})
+		} else {
+			s.OpCheckState(qs, []string{"succ"})
+		}
+		s.OpCheckState(qs, nil)
+	}
 	// (3) an invoice of somebody else carrying the PAYMENT HASH of one of the mint's own unpaid invoices, for a smaller
 	//     amount: melting it must not settle the mint quote (F17: 1 sat burned, the quote PAID, its whole amount issued)
 	if qv := s.OpMintQuote(128, "sat", 0, false); qv != nil {
